@@ -58,3 +58,31 @@ def fsmStep (s : FsmSt) (toks : List String) : FsmSt × String :=
   | _ => (s, "bad-op")
 
 end Driver
+
+namespace Driver
+open Dc4bcVerif.Model Dc4bcVerif.Gen
+
+/-- probe for re-application: for every accepted `do`, apply the same event with the same argument to the restored
+result and say what happens (`refused`, `same`, `changed`) -/
+def fsmReapply (s : FsmSt) (toks : List String) : FsmSt × String :=
+  match toks with
+  | "do" :: idx :: ev :: argToks =>
+    match idx.toNat?, parseArg argToks, evOfName ev with
+    | some k, some arg, some e =>
+      match s.store[k]? with
+      | none => (s, "-")
+      | some inst =>
+        let (i', o) := inst.doEv e arg
+        let s' := { s with last := some i' }
+        if o.res != .ok || o.resp.isNone then (s', "-") else
+        match Instance.restore i'.dumpState i'.payload with
+        | none => (s', "unrestorable")
+        | some r =>
+          let (i'', o2) := r.doEv e arg
+          if o2.res != .ok || o2.resp.isNone then (s', "refused")
+          else if rDump i''.dumpState i''.payload == rDump i'.dumpState i'.payload then (s', s!"same {ev} in {repr inst.state}")
+          else (s', s!"changed {ev} in {repr inst.state} -> {repr i'.state} -> {repr i''.state}")
+    | _, _, _ => (fsmStep s toks).1 |> fun s' => (s', "-")
+  | _ => ((fsmStep s toks).1, "-")
+
+end Driver
